@@ -19,7 +19,26 @@ MISSED_FIRST = {
  "C09-m2": "missed while donor profiles were all-positive or all-zero; caught after mixed zero/positive donor profiles",
  "C09-m3": "missed while species dicts were always built in ascending order; caught after random insertion orders",
  "C15-m4": "missed while the generator copied every list it passed; caught after the caller-owned-container aliasing monitors",
- "C18-m3": "not caught by C18 (its histories act on profile / spectrum objects, not on re-attaching them to the Laser node); caught by C01 after same-object re-assignment mutators and the laser-geometry observable were added",
+ "C07-m5": "missed while every stored table was positive and smooth; caught after hostile tables (zeros / steep steps between knots) and the non-negativity-between-knots monitor",
+ "C11-m5": "missed while each solver call used fresh arrays; caught after call sequences on shared inputs and strided geometry matrices",
+ "C11-m6": "missed while measurements were all positive; caught after non-positive measurement vectors",
+ "C09-m5": "missed while the free variable was always a float64 ndarray; caught after free-variable dtype / container classes",
+ "C15-m5": "missed while added observers were always orphans; caught after parent-state classes (already parented to this group / to another node)",
+ "C17-m1": "missed while rectangles were exact; caught after near-rectangles (trapezoids within 1e-3) were generated",
+ "C17-m3": "missed while the generator copied every vertex array; caught after the aliasing monitors",
+ "C17-m4": "missed while a grid was read once; caught after grid state sequences (activate / parent changes / re-reads)",
+ "C04-m5": "missed while plasma profiles were smooth along the beam; caught after gapped profiles (zero-density stretches) were generated",
+ "C08-m5": "missed while transition labels used S, P, D terms only; caught after high-L term letters",
+ "C10-m7": "missed while every object was used as constructed; caught after the mutate-after-construction differential (step, voxel_map, min_samples, transform vs a fresh object)",
+ "C13-m6": "missed while clamps bounded every axis; caught after bound subsets (only x / only y / only z bounded)",
+ "C16-m6": "missed while filter tables were sorted; caught after true-filter-support invariants on unsorted tables",
+ "C18-m5": "missed while beam cross-sections were judged near the waist only (far sections were skipped as uncertifiable); caught after the polar-quadrature fallback and the transverse-shape monitor",
+ "C18-m6": "missed by C18 while segment placement was not observed (C01 caught it through the laser-geometry observable); caught by C18 after the placement monitor",
+ "C04-m6": "a stale-state change (shape setters stop notifying): C04 builds a fresh beam per case and does not see it; caught by C01, whose property it breaks",
+ "C05-m6": "a stale-state change (replacing a species no longer notifies): C05 builds a fresh plasma per case and does not see it; caught by C01, whose property it breaks",
+ "C17-m5": "missed while non-constant emissivity was sampled on convex or clockwise mesh voxels only; caught after concave x anti-clockwise x mesh cases were generated",
+ "C17-m6": "missed while cross-sections were centimetre to metre sized; caught after the scale class (1e-8 .. 1e3 m) with conditioned tolerances",
+ "C18-m3": "first missed by C18 (its histories act on profile / spectrum objects, not on re-attaching them to the Laser node); caught by C01 after same-object re-assignment mutators and the laser-geometry observable were added, and by C18 itself after the placement monitor",
 }
 rows = []
 for d in sorted(glob.glob(os.path.join(R, "seeded", "*"))):
